@@ -36,7 +36,7 @@ theorem descrs_are_the_sites :
 `drc_planning_deterministic` with an explicit hypothesis. Everything else is described. -/
 theorem hash_tied_sites :
     (descrs.filter (fun d => !d.body.described)).map (fun d => (d.file, d.fn)) =
-      [("cisco/parse.go", "parser.addDefaults"), ("program/config.go", "LoadConfig")] := by decide
+      [] := by decide
 
 /-- **Described ⇒ order-insensitive, for every semantics.** The statement that makes a hand-written
 row unnecessary: for every site of the regenerated list whose body is described, running the body over
@@ -45,9 +45,9 @@ whatever the body computes. -/
 theorem described_sites_order_insensitive {K V C : Type} [DecidableEq K] :
     ∀ d, d ∈ descrs → d.body.described = true →
       ∀ (sem : Sem K V) (sem2 : Sem2 K) (p : PState K V C) (es₁ es₂ : List (Entry K)),
-        DistinctKeys es₁ → SeparateEntries es₁ → PayloadsAgree d.body sem2 es₁ → es₁.Perm es₂ →
+        DistinctKeys es₁ → SeparateEntries es₁ → PayloadsAgree d.body sem2 es₁ → NoComplaint d.body sem2 es₁ → es₁.Perm es₂ →
         runBody d.fn d.body sem sem2 p es₁ = runBody d.fn d.body sem sem2 p es₂ :=
-  fun d _ _ sem sem2 p _ _ hk hs ha perm => runBody_perm d.fn d.body sem sem2 p hk hs ha perm
+  fun d _ _ sem sem2 p _ _ hk hs ha hq perm => runBody_perm d.fn d.body sem sem2 p hk hs ha hq perm
 
 /-! ## Invocations of sites by the glue code -/
 
@@ -62,6 +62,7 @@ structure Described (K V C : Type) where
   hkeys : DistinctKeys entries
   hsep : SeparateEntries entries
   hagree : PayloadsAgree (descrs[idx]'hidx).body sem2 entries   -- only a `firstPayload` body asks for it
+  hquiet : NoComplaint (descrs[idx]'hidx).body sem2 entries    -- only a `guarded` body asks for it
   post : PState K V C → PState K V C      -- deterministic code up to the next loop
 
 /-- The glue code runs a hash-tied site: its order-insensitivity is an **assumption** (`hinv`). -/
@@ -90,7 +91,9 @@ def stageOf {K V C : Type} [DecidableEq K] : Invocation K V C → Stage (PState 
           d.hsep a (hl.mem_iff.mp ha) b (hl.mem_iff.mp hb) hab i hi
         have ha : PayloadsAgree (descrs[d.idx]'d.hidx).body d.sem2 l := fun t ht a haa a' haa' =>
           d.hagree t ht a (hl.mem_iff.mp haa) a' (hl.mem_iff.mp haa')
-        rw [runBody_perm _ _ d.sem d.sem2 p hk hs ha hl] }
+        have hq : NoComplaint (descrs[d.idx]'d.hidx).body d.sem2 l := fun t ht e he =>
+          d.hquiet t ht e (hl.mem_iff.mp he)
+        rw [runBody_perm _ _ d.sem d.sem2 p hk hs ha hq hl] }
   | .hashTied h =>
     { entries := fun _ => h.entries
       body := fun p l => h.post (h.body p l)
@@ -123,6 +126,41 @@ theorem drc_planning_deterministic_described {K V C : Type} [DecidableEq K]
       = execRun (fun q => (glue q).map (fun d => stageOf (.described d))) sch₂ fuel 0 p :=
   run_schedule_independent _ sch₁ sch₂ h₁ h₂ fuel 0 p
 
+/-! ## The comparator sorts whose keys can tie -/
+
+/-- The comparator sorts reachable from planning whose keys CAN tie (`sortGroups`, `sortRoutes`, linux
+`diffRoutes`, nsx `sortRules`), as found in the source; none of them sorts a slice collected from a map
+(`-frommap` is the syntactic mark of the translator; the only comparator sort with that mark is the one
+of deleteUnused, whose order is linear on the distinct keys: `comparator_sorts_from_maps`). -/
+theorem tie_prone_sorts :
+    (NA.Gen.MapRangesDeep.sources.filter (fun s => s.reach && s.kind == "sort-unstable-cmp")).map (fun s => s.fn) =
+      ["cisco.sortGroups", "cisco.sortRoutes", "linux.diffRoutes", "nsx.sortRules"] := by decide
+
+/-- **Ties in these sorts cannot make the output depend on the schedule.** Whatever slice of the
+program state a sort reads (`proj`) and whatever the sorting routine does with tied elements (`srt`:
+ANY function of the input sequence — Go's pdqsort is one, it draws no random numbers), the sorted result
+after a run is the same for every two schedules: the input sequence of the sort is part of the state
+that `drc_planning_deterministic` shows to be schedule independent. In particular the order of tied
+elements in the input is the order in which the parser (line order of the file) and the described loops
+(each entry appends to its own cells only; a captured slice is appended to only by collect-then-sort
+loops) produced them — never the iteration order of a map. -/
+theorem tied_sorts_schedule_independent {K V C X : Type} [DecidableEq K] (glue : Glue K V C)
+    (sch₁ sch₂ : Schedule (PState K V C) (Entry K)) (h₁ : sch₁.Valid) (h₂ : sch₂.Valid)
+    (fuel : Nat) (p : PState K V C) (proj : PState K V C → List X) (srt : List X → List X) :
+    srt (proj (execRun (fun q => (glue q).map stageOf) sch₁ fuel 0 p))
+      = srt (proj (execRun (fun q => (glue q).map stageOf) sch₂ fuel 0 p)) := by
+  rw [drc_planning_deterministic glue sch₁ sch₂ h₁ h₂ fuel p]
+
+/-- No described loop body appends to a captured slice, except the collect-then-sort loops (whose slice
+is sorted by a linear order right after the loop): the effect language has no such effect, and the
+translator makes a body `opaque` when it finds one ("assigns the captured variable …"). So the only
+bodies that could leak the iteration order into a slice are the hash-tied ones listed here. -/
+theorem only_hash_tied_bodies_could_leak_order :
+    (descrs.filter (fun d => match d.body with
+      | .effects _ | .collectSorted _ | .anyHit | .firstPayload _ | .guarded _ => false
+      | _ => true)).map (fun d => d.fn) = (descrs.filter (fun d => !d.body.described)).map (fun d => d.fn) := by
+  decide
+
 /-! Non-vacuity: an invocation of the first described site (`pos[cmd] = p + 1` of addACL is
 number 5) on two entries with different keys and objects. -/
 example : Described String Nat Unit where
@@ -130,7 +168,7 @@ example : Described String Nat Unit where
   hidx := by decide
   hdescribed := by decide
   sem := ⟨fun _ h c => h c + 1, fun _ _ _ => false, fun _ _ => false, fun _ => 0, 0⟩
-  sem2 := ⟨fun _ => true, fun e => e.key, fun _ => false, fun _ => ""⟩
+  sem2 := ⟨fun _ => true, fun e => e.key, fun _ => false, fun _ => "", fun _ => false⟩
   entries := [⟨"a", [1]⟩, ⟨"b", [2]⟩]
   hkeys := by unfold DistinctKeys UniqueKeys; decide
   hsep := by
@@ -138,6 +176,7 @@ example : Described String Nat Unit where
     simp only [List.mem_cons, List.mem_nil_iff, or_false] at ha hb
     rcases ha with rfl | rfl <;> rcases hb with rfl | rfl <;> simp at hab hi <;> omega
   hagree := by intro t _ a _ a' _; rfl
+  hquiet := by intro t _ e _; rfl
   post := id
 
 end NA.C16
@@ -147,6 +186,7 @@ namespace NA.C16.Run
 def obligations : List Lean.Name := [
   ``NA.C16.D.effStep_commOn, ``NA.C16.D.runBody_perm,
   ``NA.C16.descrs_are_the_sites, ``NA.C16.hash_tied_sites, ``NA.C16.described_sites_order_insensitive,
-  ``NA.C16.drc_planning_deterministic, ``NA.C16.drc_planning_deterministic_described]
+  ``NA.C16.drc_planning_deterministic, ``NA.C16.drc_planning_deterministic_described,
+  ``NA.C16.tie_prone_sorts, ``NA.C16.tied_sorts_schedule_independent, ``NA.C16.only_hash_tied_bodies_could_leak_order]
 
 end NA.C16.Run
